@@ -41,7 +41,7 @@ def clone(n):
         for f in n._fields:
             if hasattr(n, f):
                 setattr(new, f, clone(getattr(n, f)))
-        for a in ("lineno", "col_offset", "end_lineno", "end_col_offset", "_qualname"):
+        for a in ("lineno", "col_offset", "end_lineno", "end_col_offset", "_qualname", "_inline_block", "_was_return"):
             if hasattr(n, a):
                 setattr(new, a, getattr(n, a))
         return new
@@ -264,7 +264,45 @@ def _helper_of(fi: FuncInfo, call: ast.Call) -> FuncInfo | None:
     return c[0]
 
 
-def _expand(fi: FuncInfo, caller_names: set[str], st: ast.stmt, select: Callable[[FuncInfo, ast.Call, ast.stmt], bool]) -> list[ast.stmt] | None:
+def _none_test(t: ast.AST, var: str) -> bool | None:
+    """`var is not None` -> True, `var is None` -> False (possibly under `not`), anything else -> None"""
+    neg = False
+    while isinstance(t, ast.UnaryOp) and isinstance(t.op, ast.Not):
+        t, neg = t.operand, not neg
+    if isinstance(t, ast.Compare) and len(t.ops) == 1 and isinstance(t.left, ast.Name) and t.left.id == var and isinstance(t.comparators[0], ast.Constant) and t.comparators[0].value is None and isinstance(t.ops[0], (ast.Is, ast.IsNot)):
+        return isinstance(t.ops[0], ast.IsNot) != neg
+    return None
+
+
+def _never_none(fi: FuncInfo, hn: ast.AST, v: ast.AST, depth: int = 0) -> bool:
+    """syntactically certain not to be None: a non-None literal, a display, an f-string, a call of a function of the same module
+    whose return annotation excludes None, or a helper local bound once to such an expression"""
+    if isinstance(v, ast.Constant):
+        return v.value is not None
+    if isinstance(v, (ast.JoinedStr, ast.Dict, ast.List, ast.Tuple, ast.Set, ast.ListComp, ast.DictComp, ast.SetComp)):
+        return True
+    if isinstance(v, ast.Call):
+        h = _helper_of(fi, v)
+        if h is None:
+            return False
+        ann = getattr(h.node, "returns", None)
+        if ann is None:
+            return False
+        txt = ast.unparse(ann)
+        return "None" not in txt and "Optional" not in txt and "Any" != txt and "object" != txt
+    if isinstance(v, ast.Name) and depth < 3:
+        ds = [n for n in ast.walk(hn) if isinstance(n, ast.Assign) and len(n.targets) == 1 and isinstance(n.targets[0], ast.Name) and n.targets[0].id == v.id]
+        stores = [n for n in ast.walk(hn) if isinstance(n, ast.Name) and n.id == v.id and isinstance(n.ctx, ast.Store)]
+        return len(ds) == 1 and len(stores) == 1 and _never_none(fi, hn, ds[0].value, depth + 1)
+    return False
+
+
+def _expand(fi: FuncInfo, caller_names: set[str], st: ast.stmt, select: Callable[[FuncInfo, ast.Call, ast.stmt], bool], follow_if: ast.If | None = None, consumed: list[bool] | None = None) -> list[ast.stmt] | None:
+    """`follow_if`: the caller's next statement when it is `if <target> is [not] None: ...` on the single name the call is assigned
+    to. It is then threaded into the inlined body - placed right after each former return, reduced to the branch that the
+    returned expression selects when that is certain (a literal None, or an expression that is never None) - and reported as
+    consumed. This keeps the correlation between WHAT the helper returned and what the caller does with it visible to
+    path-insensitive analyses."""
     if isinstance(st, ast.Assign) and isinstance(st.value, ast.Call):
         call, targets = st.value, st.targets
     elif isinstance(st, ast.AnnAssign) and isinstance(st.value, ast.Call):
@@ -421,8 +459,30 @@ def _expand(fi: FuncInfo, caller_names: set[str], st: ast.stmt, select: Callable
             ast.copy_location(r, at)
             ast.fix_missing_locations(r)
             r._was_return = True  # type: ignore[attr-defined]
+        if thread is not None:
+            pol = thread[1]  # test true <=> target is not None
+            tval = val
+            if thread[2] is not None:
+                # the tested name is one element of a tuple target: look at that element of the returned tuple
+                tval = val.elts[thread[2]] if isinstance(val, ast.Tuple) and len(val.elts) == thread[3] else ast.Name(id="?", ctx=ast.Load())
+            if isinstance(tval, ast.Constant) and tval.value is None:
+                branch = follow_if.orelse if pol else follow_if.body  # type: ignore[union-attr]
+                res += clone(list(branch))
+            elif _never_none(fi, hn, tval):
+                branch = follow_if.body if pol else follow_if.orelse  # type: ignore[union-attr]
+                res += clone(list(branch))
+            else:
+                res.append(clone(follow_if))
         return res
 
+    thread = None
+    if follow_if is not None and len(targets) == 1 and isinstance(st, ast.Assign):
+        cands = [(None, targets[0])] if isinstance(targets[0], ast.Name) else list(enumerate(targets[0].elts)) if isinstance(targets[0], ast.Tuple) else []
+        for pos, t in cands:
+            if isinstance(t, ast.Name):
+                pol = _none_test(follow_if.test, t.id)
+                if pol is not None:
+                    thread = (t.id, pol, pos, len(cands))
     renamed_body = [R().visit(b) for b in body]
     if isinstance(st, ast.Return):
         # `return h(...)`: the helper's returns simply become the caller's
@@ -443,6 +503,8 @@ def _expand(fi: FuncInfo, caller_names: set[str], st: ast.stmt, select: Callable
             new_body = [blk]
         except _Unsupported:
             return None
+    if thread is not None and consumed is not None:
+        consumed[0] = True
     out: list[ast.stmt] = prologue + new_body
     for o in out:
         ast.fix_missing_locations(o)
@@ -559,7 +621,11 @@ def inline_helpers(fi: FuncInfo, select: Callable[[FuncInfo, ast.Call, ast.stmt]
         def walk(stmts: list[ast.stmt]) -> list[ast.stmt]:
             nonlocal changed
             out: list[ast.stmt] = []
-            for st in stmts:
+            skip_next = False
+            for idx, st in enumerate(stmts):
+                if skip_next:
+                    skip_next = False
+                    continue
                 # expression-position helpers first: substitute one-expression helpers, hoist the others in front of the statement
                 if isinstance(st, (ast.Expr, ast.Assign, ast.AnnAssign, ast.AugAssign, ast.Return, ast.If, ast.While)):
                     ei = _ExprInliner(view, sel, names, inlined)
@@ -585,12 +651,15 @@ def inline_helpers(fi: FuncInfo, select: Callable[[FuncInfo, ast.Call, ast.stmt]
                             out.extend(exp_h)
                         else:
                             out.append(hst)
-                exp = _expand(view, names, st, lambda h, c, s: sel(h, c, s))
+                nxt = stmts[idx + 1] if idx + 1 < len(stmts) else None
+                consumed = [False]
+                exp = _expand(view, names, st, lambda h, c, s: sel(h, c, s), nxt if isinstance(nxt, ast.If) else None, consumed)
                 if exp is not None:
                     h = _helper_of(view, st.value)  # type: ignore[attr-defined]
                     inlined.append(h.qualname if h else "?")
                     out.extend(exp)
                     changed = True
+                    skip_next = consumed[0]
                     continue
                 for f in ("body", "orelse", "finalbody"):
                     v = getattr(st, f, None)
